@@ -157,6 +157,57 @@ func init() {
 			x.DefOptBool("snapshotCheckpointsUnderGate", false, false)
 		}
 
+		// ---- store/store.go (*Store).Backup: the gzip writer is closed only when the backup succeeded
+		x.Comment("store/store.go (*Store).Backup: every deferred closure that calls dstGz.Close() first returns if retErr != nil")
+		if fd := x.Func("store", "Store", "Backup"); fd != nil {
+			n, guarded := 0, 0
+			ast.Inspect(fd.Body, func(nd ast.Node) bool {
+				d, ok := nd.(*ast.DeferStmt)
+				if !ok {
+					return true
+				}
+				fl, ok := d.Call.Fun.(*ast.FuncLit)
+				if !ok || len(x.Calls(fl.Body, "Close")) == 0 || !strings.Contains(x.Src(fl.Body), "dstGz.Close()") {
+					return true
+				}
+				n++
+				if len(fl.Body.List) > 0 {
+					if is, ok := fl.Body.List[0].(*ast.IfStmt); ok && x.Src(is.Cond) == "retErr != nil" && len(is.Body.List) == 1 {
+						if _, ok := is.Body.List[0].(*ast.ReturnStmt); ok {
+							guarded++
+						}
+					}
+				}
+				return true
+			})
+			x.DefOptInt("backupGzipCloseSites", int64(n), true)
+			x.DefOptBool("backupGzipClosedOnlyOnSuccess", n > 0 && n == guarded, n > 0)
+		} else {
+			x.DefOptInt("backupGzipCloseSites", 0, false)
+			x.DefOptBool("backupGzipClosedOnlyOnSuccess", false, false)
+		}
+
+		// ---- http/service.go handleBackup: a failure after the first byte aborts the response
+		x.Comment("http/service.go (*Service).handleBackup: the error branch of proxy.Backup panics with http.ErrAbortHandler when the response has started")
+		if fd := x.Func("http", "Service", "handleBackup"); fd != nil {
+			found := false
+			ast.Inspect(fd.Body, func(nd ast.Node) bool {
+				is, ok := nd.(*ast.IfStmt)
+				if !ok || !strings.HasSuffix(x.Src(is.Cond), ".started") {
+					return true
+				}
+				for _, c := range x.Calls(is.Body, "panic") {
+					if len(c.Args) == 1 && x.Src(c.Args[0]) == "http.ErrAbortHandler" {
+						found = true
+					}
+				}
+				return true
+			})
+			x.DefOptBool("httpBackupAbortsStartedResponse", found, true)
+		} else {
+			x.DefOptBool("httpBackupAbortsStartedResponse", false, false)
+		}
+
 		// ---- cluster/service.go handleConn: compression forced on the wire
 		x.Comment("cluster/service.go handleConn: br.Compress = true before s.db.Backup(.., br, conn)")
 		if fd := x.Func("cluster", "Service", "handleConn"); fd != nil {
